@@ -35,7 +35,35 @@ def gen_resource_world(rng, k, cfg):
         return re.sub(r"\bf(\d+):", r"q\1:", body)
     i = f"interface i {{\n{RES_DECL}{FIXED_I}{rand_funcs('i', True)}}}\n"
     j = f"interface j {{\n  use i.{{res as ires}};\n{RES_DECL}{FIXED_J}{rand_funcs('j', False)}}}\n"
-    return f"package t:w{k};\n{i}{j}world w {{ import i; export j; }}\n", stats
+    # the same two resources reached through alias chains of length 1, 2 and 3 (`use`, `use` + `type`,
+    # `use` of a `use`, `type` of a `type`), own and borrow, directly and nested
+    def pick(funcs):
+        """a random non-empty subset of the functions of an alias-chain interface (worlds differ in which
+        nestings they combine)"""
+        chosen = [f for f in funcs if rng.random() < 0.6] or [rng.choice(funcs)]
+        return "".join("  " + f + "\n" for f in chosen)
+    chains = (
+        "interface k1 {\n  use j.{res};\n" + pick([
+            "a0: func(x: borrow<res>) -> u32;",
+            "a1: func(x: res, y: option<borrow<res>>) -> option<res>;"]) + "}\n"
+        "interface k2 {\n  use j.{res};\n  type item = res;\n  record rk { a: item, n: u8 }\n" + pick([
+            "b0: func(x: borrow<item>) -> u32;",
+            "b1: func(x: option<borrow<item>>, y: list<item>, z: rk) -> list<item>;",
+            "b2: func(x: list<borrow<item>>, y: result<item, u8>) -> u32;",
+            "b3: func(x: option<borrow<item>>) -> u32;"]) + "}\n"
+        "interface k3 {\n  use k1.{res};\n  type it2 = res;\n  type it3 = it2;\n  variant vk { c0, c1(it3) }\n" + pick([
+            "c0: func(x: borrow<res>, y: borrow<it2>) -> u32;",
+            "c1: func(x: borrow<it3>, y: it3, z: vk) -> it3;",
+            "c2: func(x: tuple<borrow<it3>, u8>, y: option<borrow<it2>>) -> u32;",
+            "c3: func(x: borrow<it3>) -> u32;"]) + "}\n"
+        "interface i1 {\n  use i.{res};\n  type item = res;\n" + pick([
+            "d0: func(x: borrow<item>, y: item) -> item;",
+            "d1: func(x: list<borrow<item>>, y: option<item>) -> list<item>;"]) + "}\n"
+        "interface k4 {\n  use i1.{item as iitem};\n  type ii2 = iitem;\n" + pick([
+            "e0: func(x: borrow<ii2>, y: ii2) -> option<ii2>;",
+            "e1: func(x: borrow<ii2>) -> u32;"]) + "}\n")
+    return (f"package t:w{k};\n{i}{j}{chains}world w {{ import i; import i1; export j; export k1; export k2; export k3; export k4; }}\n",
+            stats)
 
 
 def strip_ann(t):
@@ -91,7 +119,7 @@ class ResHost:
             self.trace.append(f"drop {h}")
             e = self.table.pop(h, None)
             if e is None:
-                self.fail("resource:drop-of-handle-not-owned", "the guest called resource-drop on a handle it does not hold (double drop, drop after transfer, or drop of a borrow it was not given)", handle=h)
+                self.fail("resource:drop-of-handle-not-owned", "the guest called resource-drop on a handle it does not hold (double drop, drop after transfer, or drop of a borrow it was not given)", handle=h, function=out.get("key"), args=out.get("vals"))
             elif e["kind"] == "own" and e["res"][0] == "exp":
                 self.call_dtor(module[len("[export]"):], e["res"][1], out)
             elif e["kind"] == "own":
@@ -112,7 +140,7 @@ class ResHost:
             rep = e["res"][1] if e and e["kind"] == "own" and e["res"][0] == "exp" else 0
             self.trace.append(f"rep {h} {rep}")
             if rep == 0:
-                self.fail("resource:rep-of-handle-not-owned", "resource-rep called on a handle the guest does not own", handle=h)
+                self.fail("resource:rep-of-handle-not-owned", "resource-rep called on a handle the guest does not own (e.g. a representation pointer used as a handle index)", handle=h, function=out.get("key"), args=out.get("vals"))
             self.r.native.send(f"RETURN|{rep}")
         else:
             out.setdefault("unexpected_imports", []).append(key)
